@@ -8,11 +8,12 @@ drv_c05 — line protocol (C05 and C06 share it):
       -> `layout <size> <align> <valueOffset> futex=<o> sz=<o> al=<o>` | `layout-panic`
   thr <checkClone> <mmapCleanup> <initWord> <joinExpect> <dropExpect> <setTidRet> <setTidPanic> <loadSync> <spurious> <dropValH> <dropValT> <recheck> : <inst> <event> ; ...
       replays an observed history (events of all instances in observation order) on the model:
-      -> `accept n=<events> joins=<inst>:<some v|none>,.. complete=<b> bad=<b> raced=<b> heap=<live blocks> maps=<live mappings> leaked=<panicked closures> frees=<inst>:<tsm>/<tls>/<stack>/<box>,..`
+      -> `accept n=<events> joins=<inst>:<some v|none>,.. complete=<b> bad=<b> raced=<b> heap=<live blocks> maps=<live mappings> leaked=<panicked closures> dpanics=<n> frees=<inst>:<tsm>/<tls>/<stack>/<box>,..`
       -> `reject <k> inst=<i> ev=<event> h=<pc> t=<pc> ...` when the model's party would not take that step there
   events: hAllocTsm hBox hMmap=<0|1> hAllocTls hClone=<0|1> hUndoTls hUndoStack hUndoBox hUndoTsm hJoin hDrop
           hLoad=<v> hFwait=<park 0|1> hEintr hSpur hReadSlot hFreeTsm hCas=<0|1>
-          tRet=<v> tPanic tWrite tPanicRead tCas=<0|1> tSetTid tFreeTsm tFreeTls tFreeBox tMunmap tExit kExit
+          tRet=<v> tPanic tWrite tPanicRead tCas=<0|1> tSetTid tDropVal tDropPanic tFreeTsm tFreeTls tFreeBox tMunmap tExit kExit
+      (`leaked` counts the threads that panicked — closure or destructor of the unread result; `dpanics` those of the second kind)
 -/
 
 def bit (s : String) : Option Bool := if s == "1" then some true else if s == "0" then some false else none
@@ -32,6 +33,7 @@ def parseEv (w : String) : Option Ev :=
     else if n == "tFreeTsm" then some .tFreeTsm else if n == "tFreeTls" then some .tFreeTls
     else if n == "tFreeBox" then some .tFreeBox else if n == "tMunmap" then some .tMunmap
     else if n == "tExit" then some .tExit else if n == "kExit" then some .kExit
+    else if n == "tDropVal" then some .tDropVal else if n == "tDropPanic" then some .tDropPanic
     else none
   | [n, a] =>
     if n == "hMmap" then (bit a).map .hMmap
@@ -65,8 +67,9 @@ def summary (s : St) (ids : List Nat) (n : Nat) : String :=
   let heap := xs.foldl (fun a (_, x) => a + liveHeap x) 0
   let maps := xs.foldl (fun a (_, x) => a + liveMaps x) 0
   let leaked := xs.foldl (fun a (_, x) => a + b2n (spawnedOk x.h && x.panicked)) 0
+  let dps := xs.foldl (fun a (_, x) => a + b2n x.dpanic) 0
   let frees := xs.map (fun (i, x) => s!"{i}:{x.tsmFrees}/{x.tlsFrees}/{x.stackFrees}/{x.boxFrees}")
-  s!"accept n={n} joins={",".intercalate joins} complete={cmp} bad={bad} raced={raced} heap={heap} maps={maps} leaked={leaked} frees={",".intercalate frees}"
+  s!"accept n={n} joins={",".intercalate joins} complete={cmp} bad={bad} raced={raced} heap={heap} maps={maps} leaked={leaked} dpanics={dps} frees={",".intercalate frees}"
 
 def replay (c : Cfg) : St → Nat → List Nat → List (List String) → String
   | s, k, ids, [] => summary s ids k
